@@ -43,7 +43,7 @@ pub fn _mm_cmpeq_epi8(a: __m128i, b: __m128i) -> (r: __m128i)
     ensures r.lanes().len() == 16, forall|i: int| 0 <= i < 16 ==> #[trigger] r.lanes()[i] == (if a.lanes()[i] == b.lanes()[i] { 0xFFu8 } else { 0u8 })
 { unimplemented!() }
 #[verifier::external_body]
-pub fn _mm256_or_si256(a: __m256i, b: __m256i) -> (r: __m256i)
+pub fn raw_or256(a: __m256i, b: __m256i) -> (r: __m256i)
     requires a.lanes().len() == 32, b.lanes().len() == 32
     ensures r.lanes().len() == 32, forall|i: int| 0 <= i < 32 ==> #[trigger] r.lanes()[i] == a.lanes()[i] | b.lanes()[i]
 { unimplemented!() }
@@ -100,4 +100,78 @@ pub fn _mm256_setzero_si256() -> (r: __m256i)
 #[verifier::external_body]
 pub fn _mm_setzero_si128() -> (r: __m128i)
     ensures r.lanes().len() == 16, forall|i: int| 0 <= i < 16 ==> #[trigger] r.lanes()[i] == 0u8
+{ unimplemented!() }
+
+// ---- more lane operations (UTF-8 validator). and/xor/or are given "boolean lane" corollaries by verified wrappers below.
+#[verifier::external_body]
+pub fn _mm256_max_epu8(a: __m256i, b: __m256i) -> (r: __m256i)
+    requires a.lanes().len() == 32, b.lanes().len() == 32
+    ensures r.lanes().len() == 32, forall|i: int| 0 <= i < 32 ==> #[trigger] r.lanes()[i] == (if a.lanes()[i] >= b.lanes()[i] { a.lanes()[i] } else { b.lanes()[i] })
+{ unimplemented!() }
+#[verifier::external_body]
+pub fn raw_and256(a: __m256i, b: __m256i) -> (r: __m256i)
+    requires a.lanes().len() == 32, b.lanes().len() == 32
+    ensures r.lanes().len() == 32, forall|i: int| 0 <= i < 32 ==> #[trigger] r.lanes()[i] == a.lanes()[i] & b.lanes()[i]
+{ unimplemented!() }
+#[verifier::external_body]
+pub fn raw_xor256(a: __m256i, b: __m256i) -> (r: __m256i)
+    requires a.lanes().len() == 32, b.lanes().len() == 32
+    ensures r.lanes().len() == 32, forall|i: int| 0 <= i < 32 ==> #[trigger] r.lanes()[i] == a.lanes()[i] ^ b.lanes()[i]
+{ unimplemented!() }
+pub open spec fn bl(x: u8) -> bool { x == 0xFF || x == 0 }
+pub proof fn lemma_bool_lanes(a: u8, b: u8)
+    requires bl(a), bl(b)
+    ensures (a | b) == (if a == 0xFF || b == 0xFF { 0xFFu8 } else { 0u8 }), (a & b) == (if a == 0xFF && b == 0xFF { 0xFFu8 } else { 0u8 }),
+        (a ^ b) == (if (a == 0xFF) != (b == 0xFF) { 0xFFu8 } else { 0u8 })
+{
+    assert((a == 0xFFu8 || a == 0u8) && (b == 0xFFu8 || b == 0u8) ==> ((a | b) == (if a == 0xFFu8 || b == 0xFFu8 { 0xFFu8 } else { 0u8 }))
+        && ((a & b) == (if a == 0xFFu8 && b == 0xFFu8 { 0xFFu8 } else { 0u8 })) && ((a ^ b) == (if (a == 0xFFu8) != (b == 0xFFu8) { 0xFFu8 } else { 0u8 }))) by (bit_vector);
+}
+/// `_mm256_or_si256` with the boolean-lane corollary (verified on top of the raw lane formula)
+pub fn _mm256_or_si256(a: __m256i, b: __m256i) -> (r: __m256i)
+    requires a.lanes().len() == 32, b.lanes().len() == 32
+    ensures r.lanes().len() == 32, forall|i: int| 0 <= i < 32 ==> #[trigger] r.lanes()[i] == a.lanes()[i] | b.lanes()[i],
+        forall|i: int| 0 <= i < 32 && bl(a.lanes()[i]) && bl(b.lanes()[i]) ==> #[trigger] r.lanes()[i] == (if a.lanes()[i] == 0xFF || b.lanes()[i] == 0xFF { 0xFFu8 } else { 0u8 })
+{
+    let r = raw_or256(a, b);
+    proof { assert forall|i: int| 0 <= i < 32 && bl(a.lanes()[i]) && bl(b.lanes()[i]) implies #[trigger] r.lanes()[i] == (if a.lanes()[i] == 0xFF || b.lanes()[i] == 0xFF { 0xFFu8 } else { 0u8 }) by { lemma_bool_lanes(a.lanes()[i], b.lanes()[i]); } }
+    r
+}
+pub fn _mm256_and_si256(a: __m256i, b: __m256i) -> (r: __m256i)
+    requires a.lanes().len() == 32, b.lanes().len() == 32
+    ensures r.lanes().len() == 32, forall|i: int| 0 <= i < 32 ==> #[trigger] r.lanes()[i] == a.lanes()[i] & b.lanes()[i],
+        forall|i: int| 0 <= i < 32 && bl(a.lanes()[i]) && bl(b.lanes()[i]) ==> #[trigger] r.lanes()[i] == (if a.lanes()[i] == 0xFF && b.lanes()[i] == 0xFF { 0xFFu8 } else { 0u8 })
+{
+    let r = raw_and256(a, b);
+    proof { assert forall|i: int| 0 <= i < 32 && bl(a.lanes()[i]) && bl(b.lanes()[i]) implies #[trigger] r.lanes()[i] == (if a.lanes()[i] == 0xFF && b.lanes()[i] == 0xFF { 0xFFu8 } else { 0u8 }) by { lemma_bool_lanes(a.lanes()[i], b.lanes()[i]); } }
+    r
+}
+pub fn _mm256_xor_si256(a: __m256i, b: __m256i) -> (r: __m256i)
+    requires a.lanes().len() == 32, b.lanes().len() == 32
+    ensures r.lanes().len() == 32, forall|i: int| 0 <= i < 32 ==> #[trigger] r.lanes()[i] == a.lanes()[i] ^ b.lanes()[i],
+        forall|i: int| 0 <= i < 32 && bl(a.lanes()[i]) && bl(b.lanes()[i]) ==> #[trigger] r.lanes()[i] == (if (a.lanes()[i] == 0xFF) != (b.lanes()[i] == 0xFF) { 0xFFu8 } else { 0u8 })
+{
+    let r = raw_xor256(a, b);
+    proof { assert forall|i: int| 0 <= i < 32 && bl(a.lanes()[i]) && bl(b.lanes()[i]) implies #[trigger] r.lanes()[i] == (if (a.lanes()[i] == 0xFF) != (b.lanes()[i] == 0xFF) { 0xFFu8 } else { 0u8 }) by { lemma_bool_lanes(a.lanes()[i], b.lanes()[i]); } }
+    r
+}
+/// `_mm256_permute2x128_si256(a, b, 0x21)`: [a.high128, b.low128]
+#[verifier::external_body]
+pub fn _mm256_permute2x128_si256(a: __m256i, b: __m256i, imm: i32) -> (r: __m256i)
+    requires a.lanes().len() == 32, b.lanes().len() == 32, imm == 0x21
+    ensures r.lanes().len() == 32, forall|i: int| 0 <= i < 32 ==> #[trigger] r.lanes()[i] == (if i < 16 { a.lanes()[16 + i] } else { b.lanes()[i - 16] })
+{ unimplemented!() }
+/// `_mm256_alignr_epi8(a, b, n)`, n <= 16: in each 128-bit half, bytes n.. of (a_half : b_half)
+#[verifier::external_body]
+pub fn _mm256_alignr_epi8(a: __m256i, b: __m256i, n: i32) -> (r: __m256i)
+    requires a.lanes().len() == 32, b.lanes().len() == 32, 0 <= n <= 16
+    ensures r.lanes().len() == 32,
+        forall|i: int| 0 <= i < 32 ==> #[trigger] r.lanes()[i] == ({ let k = if i < 16 { 0int } else { 16int }; let j = i - k;
+            if j + n < 16 { b.lanes()[k + j + n] } else { a.lanes()[k + j + n - 16] } })
+{ unimplemented!() }
+/// `_mm256_testz_si256(a, b)`: 1 iff a & b is all zero
+#[verifier::external_body]
+pub fn _mm256_testz_si256(a: __m256i, b: __m256i) -> (r: i32)
+    requires a.lanes().len() == 32, b.lanes().len() == 32
+    ensures (r == 1) == (forall|i: int| 0 <= i < 32 ==> #[trigger] a.lanes()[i] & b.lanes()[i] == 0), r == 0 || r == 1
 { unimplemented!() }
